@@ -1,4 +1,5 @@
 import MazeVerif.Lemmas.Coll
+import MazeVerif.Lemmas.CollectionState
 /-! # C16 — a dataset collection is exactly the concatenation of its member datasets
 
 Model: `MZ.Coll.locate` (collected_dataset.py:108-119). A member dataset is a list of mazes of an
@@ -78,5 +79,257 @@ example : getItem [[], [10, 11], [], [], [12], []] 2 = some 12 := by decide
 example : (mazes [[], [10, 11], [], [], [12], []]).length = 3 ∧ len [[], [10, 11], [], [], [12], ([] : List Nat)] = 3 := by decide
 example : getItem [[], [10, 11], [], [], [12], []] 3 = none := by decide
 example : locate [1, 0, 3, 2, 1] 4 = (3, 0) := by decide
+
+
+/-! ## the collection as a state machine: members are edited over time
+
+Model: `Model/CollectionState.lean` (`CState`, `Op`, `step`, `init`, `run`, `obs`). `obs s pre o` is the answer the
+collection gives to statement `o` after the statement list `pre`, started in state `s`. `curMembers`, `dirty`,
+`disciplined` are functions of the statement list alone (the specification side); the theorems say what the machine
+answers in terms of them, for EVERY statement list (induction over the list) and, unless `init` is written, from EVERY
+start state. `C16_counts_agree`'s hypothesis ("every member config's `n_mazes` is the member's length") is no longer
+assumed: `C16_state_counts_after_update` / `C16_state_counts_invariant` say when it holds, the examples when not. -/
+
+/-- the driver's output list, entry by entry: output `k` of a run is `obs` after the first `k` statements -/
+theorem C16_state_run_obs {α} (s : CState α) (ops : List (Op α)) (k : Nat) (hk : k < ops.length) :
+    (run s ops).2.length = ops.length ∧ (run s ops).1 = runState s ops ∧
+    (run s ops).2[k]? = some (obs s (ops.take k) ops[k]) := by
+  refine ⟨run_length s ops, run_fst s ops, ?_⟩
+  rw [List.getElem?_eq_getElem (by rw [run_length]; exact hk), run_getElem s ops k hk]
+
+/-- after ANY statement list from ANY state: `len` is the sum of the CURRENT member lengths, `dataset_lengths` the current
+    lengths, `coll[i]` the i-th maze of the CURRENT concatenation (whatever is cached, whatever the configs say), and
+    an index at or past the current total is an IndexError. The current members are the initial ones with the
+    `setMember` statements applied — nothing else moves them. -/
+theorem C16_state_len_getitem {α} (s : CState α) (pre : List (Op α)) :
+    (runState s pre).members = curMembers s.members pre ∧
+    obs s pre .len = .nat ((curMembers s.members pre).map List.length).sum ∧
+    obs s pre .len = .nat (curMembers s.members pre).flatten.length ∧
+    obs s pre .lengths = .nats ((curMembers s.members pre).map List.length) ∧
+    (∀ i (h : i < (curMembers s.members pre).flatten.length),
+        obs s pre (.getitem i) = .item ((curMembers s.members pre).flatten[i])) ∧
+    (∀ i, (curMembers s.members pre).flatten.length ≤ i → obs s pre (.getitem i) = .error) := by
+  have hm := runState_members s pre
+  refine ⟨hm, ?_, ?_, ?_, ?_, ?_⟩
+  · simp only [obs, step, hm, len]
+  · simp only [obs, step, hm, C16_len, mazes]
+  · simp only [obs, step, hm]
+  · intro i h
+    have := C16_getitem (curMembers s.members pre) i h
+    simp only [obs, step, hm, this, mazes]
+  · intro i h
+    have := C16_getitem_out_of_range (curMembers s.members pre) i h
+    simp only [obs, step, hm, this]
+
+private theorem read_of_cache {α} (t : CState α) (l : List α) (h : t.cache = some l) :
+    (step t .readMazes).2 = .list l := by
+  simp only [step, h]
+
+/-- `coll.mazes` is frozen at its first read. Started with an empty cache slot, with `p1` free of reads:
+    the first read answers the concatenation as it is then, and EVERY later read — whatever happened in `p2` —
+    answers that same list. -/
+theorem C16_state_cache {α} (s : CState α) (hc : s.cache = none) (p1 p2 : List (Op α))
+    (h1 : ∀ o ∈ p1, o.isRead = false) :
+    obs s p1 .readMazes = .list (curMembers s.members p1).flatten ∧
+    obs s (p1 ++ .readMazes :: p2) .readMazes = .list (curMembers s.members p1).flatten := by
+  have hn := runState_cache_none s p1 hc h1
+  have hm := runState_members s p1
+  constructor
+  · simp only [obs, step, hn, hm, mazes]
+  · have hs : (step (runState s p1) .readMazes).1.cache = some (curMembers s.members p1).flatten := by
+      simp only [step, hn, hm, mazes]
+    have := runState_cache_some _ p2 _ hs
+    rw [obs, runState_append]
+    show (step (runState (step (runState s p1) .readMazes).1 p2) .readMazes).2 = _
+    exact read_of_cache _ _ this
+
+/-- exact characterisation of staleness: a later read equals the CURRENT concatenation iff the concatenation at the first
+    read equals the current one. -/
+theorem C16_state_cache_fresh_iff {α} (s : CState α) (hc : s.cache = none) (p1 p2 : List (Op α))
+    (h1 : ∀ o ∈ p1, o.isRead = false) :
+    obs s (p1 ++ .readMazes :: p2) .readMazes = .list (curMembers s.members (p1 ++ .readMazes :: p2)).flatten ↔
+    (curMembers s.members p1).flatten = (curMembers s.members (p1 ++ .readMazes :: p2)).flatten := by
+  rw [(C16_state_cache s hc p1 p2 h1).2]
+  constructor
+  · intro h; injection h
+  · intro h; rw [h]
+
+/-- sufficient for a fresh answer: no `setMember` since the first read -/
+theorem C16_state_cache_fresh {α} (s : CState α) (hc : s.cache = none) (p1 p2 : List (Op α))
+    (h1 : ∀ o ∈ p1, o.isRead = false) (h2 : ∀ o ∈ p2, o.isSet = false) :
+    obs s (p1 ++ .readMazes :: p2) .readMazes = .list (curMembers s.members (p1 ++ .readMazes :: p2)).flatten := by
+  rw [C16_state_cache_fresh_iff s hc p1 p2 h1, curMembers_append]
+  simp only [curMembers]
+  rw [curMembers_noSet _ p2 h2]
+
+/-- a filled cache slot never changes: every read, after anything, answers the cached list -/
+theorem C16_state_cache_frozen {α} (s : CState α) (l : List α) (hc : s.cache = some l) (pre : List (Op α)) :
+    obs s pre .readMazes = .list l := by
+  simp only [obs, step, runState_cache_some s pre l hc]
+
+/-- immediately after `coll.update_self_config()` and until the next `setMember` (any start state — nothing assumed about
+    the members or their configs; any statements `pre` before, any non-`setMember` statements `p2` after):
+    every member config's `n_mazes` is the member's length, `len` = sum of the member configs' `n_mazes` = sum of
+    the lengths = length of the concatenation, and `cfg.n_mazes` is that number PLUS the surplus configs' total. -/
+theorem C16_state_counts_after_update_any {α} (s : CState α) (pre p2 : List (Op α))
+    (h2 : ∀ o ∈ p2, o.isSet = false) :
+    let hist := pre ++ .collUpdateCfg :: p2
+    let cur := curMembers s.members hist
+    cur = curMembers s.members pre ∧
+    (runState s hist).memberCfgN = cur.map List.length ∧
+    obs s hist .len = .nat (runState s hist).memberCfgN.sum ∧
+    obs s hist .len = .nat (cur.map List.length).sum ∧
+    obs s hist .len = .nat cur.flatten.length ∧
+    obs s hist .cfgCount = .nat (cur.flatten.length + s.extraCfgN) := by
+  intro hist cur
+  have hcur : cur = curMembers s.members pre := by
+    simp only [cur, hist, curMembers_append, curMembers]
+    exact curMembers_noSet _ p2 h2
+  have hinv : CountsInv (runState s hist) [] := by
+    have := countsInv_run (step (runState s pre) .collUpdateCfg).1 [] p2 (countsInv_collUpdate _)
+    rw [dirty_noSet p2 h2] at this
+    simpa only [hist, runState_append, runState] using this
+  have hcfg := countsInv_nil _ hinv
+  have hm : (runState s hist).members = cur := runState_members s hist
+  have hsum : (cur.map List.length).sum = cur.flatten.length := by simp [List.length_flatten]
+  refine ⟨hcur, by rw [hcfg, hm], ?_, ?_, ?_, ?_⟩
+  · simp only [obs, step, len, hcfg]
+  · simp only [obs, step, len, hm]
+  · simp only [obs, step, len, hm, hsum]
+  · simp only [obs, step, CState.collCfgN, cfgNMazes, hcfg, hm, hsum, runState_extra]
+
+/-- the same from a freshly generated collection (`init`, no surplus configs): after `update_self_config` and until the
+    next `setMember`, `cfg.n_mazes` = `len` = sum of member configs' `n_mazes` = sum of lengths = length of the concatenation -/
+theorem C16_state_counts_after_update {α} (ms : List (List α)) (pre p2 : List (Op α))
+    (h2 : ∀ o ∈ p2, o.isSet = false) :
+    let hist := pre ++ .collUpdateCfg :: p2
+    let cur := curMembers ms hist
+    obs (init ms) hist .cfgCount = .nat cur.flatten.length ∧
+    obs (init ms) hist .len = .nat cur.flatten.length ∧
+    (runState (init ms) hist).memberCfgN.sum = cur.flatten.length ∧
+    (cur.map List.length).sum = cur.flatten.length ∧
+    obs (init ms) hist .lengths = .nats (cur.map List.length) := by
+  intro hist cur
+  obtain ⟨_, h1, _, _, h4, h5⟩ := C16_state_counts_after_update_any (init ms) pre p2 h2
+  have hsum : (cur.map List.length).sum = cur.flatten.length := by simp [List.length_flatten]
+  refine ⟨by simpa [init] using h5, h4, ?_, hsum, (C16_state_len_getitem (init ms) hist).2.2.2.1⟩
+  rw [h1]; exact hsum
+
+/-- The statement "after `update_self_config` the reported count equals `len`, from ANY collection the constructor
+    accepts" is FALSE: the constructor keeps surplus entries of `cfg.maze_dataset_configs` (more configs than datasets;
+    the `zip` in its assertion loop truncates), the property sums them, and `update_self_config` cannot reach them. -/
+def C16_state_counts_after_update_full : Prop :=
+  ∀ (α : Type) (s : CState α), obs s [.collUpdateCfg] .cfgCount = obs s [.collUpdateCfg] .len
+
+theorem C16_state_counts_after_update_full_false : ¬ C16_state_counts_after_update_full := by
+  intro h
+  have := h Nat { members := [[1], [2]], memberCfgN := [1, 1], extraCfgN := 5, dictN := none, cache := none }
+  revert this; decide
+
+/-- whenever no member slot is dirty (every `setMember j` so far was followed by `memberUpdateCfg j` or
+    `collUpdateCfg`), a freshly generated collection reports agreeing counts: `cfg.n_mazes` = `len` =
+    sum of `dataset_lengths` = sum of the member configs' `n_mazes` = length of the current concatenation. -/
+theorem C16_state_counts_invariant {α} (ms : List (List α)) (pre : List (Op α)) (hclean : dirty [] pre = []) :
+    let cur := curMembers ms pre
+    (runState (init ms) pre).memberCfgN = cur.map List.length ∧
+    obs (init ms) pre .cfgCount = .nat cur.flatten.length ∧
+    obs (init ms) pre .len = .nat cur.flatten.length ∧
+    obs (init ms) pre .lengths = .nats (cur.map List.length) ∧
+    (cur.map List.length).sum = cur.flatten.length := by
+  intro cur
+  have hinv := countsInv_run (init ms) [] pre (countsInv_init ms)
+  rw [hclean] at hinv
+  have hcfg := countsInv_nil _ hinv
+  have hm : (runState (init ms) pre).members = cur := runState_members (init ms) pre
+  have hsum : (cur.map List.length).sum = cur.flatten.length := by simp [List.length_flatten]
+  have hx : (runState (init ms) pre).extraCfgN = 0 := runState_extra (init ms) pre
+  refine ⟨by rw [hcfg, hm], ?_, ?_, ?_, hsum⟩
+  · simp only [obs, step, CState.collCfgN, cfgNMazes, hcfg, hm, hsum, hx, Nat.add_zero]
+  · simp only [obs, step, len, hm, hsum]
+  · simp only [obs, step, hm]
+
+/-- run form: in a DISCIPLINED statement list (every count is read with no dirty slot), every count the run outputs
+    is the right one for the members as they are at that moment -/
+theorem C16_state_counts_invariant_run {α} (ms : List (List α)) (ops : List (Op α))
+    (hd : disciplined [] ops = true) (k : Nat) (hk : k < ops.length) :
+    let cur := curMembers ms (ops.take k)
+    (ops[k] = .cfgCount → (run (init ms) ops).2[k]? = some (.nat cur.flatten.length)) ∧
+    (ops[k] = .len → (run (init ms) ops).2[k]? = some (.nat cur.flatten.length)) ∧
+    (ops[k] = .lengths → (run (init ms) ops).2[k]? = some (.nats (cur.map List.length)) ∧
+        (cur.map List.length).sum = cur.flatten.length) := by
+  intro cur
+  have hrun := (C16_state_run_obs (init ms) ops k hk).2.2
+  have hclean : ops[k].isCountObs = true → dirty [] (ops.take k) = [] := disciplined_clean [] ops hd k hk
+  refine ⟨fun he => ?_, fun he => ?_, fun he => ?_⟩
+  · obtain ⟨_, h, _⟩ := C16_state_counts_invariant ms (ops.take k) (hclean (by rw [he]; rfl))
+    rw [hrun, he, h]
+  · obtain ⟨_, _, h, _⟩ := C16_state_counts_invariant ms (ops.take k) (hclean (by rw [he]; rfl))
+    rw [hrun, he, h]
+  · obtain ⟨_, _, _, h, hs⟩ := C16_state_counts_invariant ms (ops.take k) (hclean (by rw [he]; rfl))
+    exact ⟨by rw [hrun, he, h], hs⟩
+
+/-! ### non-vacuity and counterexamples (concrete statement lists, evaluated) -/
+
+/-- a run exercising every statement kind and both error branches -/
+example : (run (init [[10, 11], [], [12]])
+    [.len, .getitem 2, .setMember 1 [20, 21], .getitem 2, .len, .lengths, .cfgCount, .memberUpdateCfg 1, .cfgCount,
+     .readMazes, .getitem 5, .setMember 7 [], .memberUpdateCfg 3]).2
+  = [.nat 3, .item 12, .unit, .item 20, .nat 5, .nats [2, 2, 1], .nat 3, .unit, .nat 5,
+     .list [10, 11, 20, 21, 12], .error, .error, .error] := by decide
+
+/-- C16_state_len_getitem / C16_state_run_obs: hypotheses-free, instance with edits before the lookup -/
+example : obs (init [[10, 11], [], [12]]) [.readMazes, .setMember 0 [], .setMember 1 [7, 8]] (.getitem 1) = .item 8 ∧
+    curMembers [[10, 11], [], [12]] [.readMazes, .setMember 0 [], .setMember 1 [7, 8]] = [[], [7, 8], [12]] := by decide
+
+/-- THE STALE COUNTEREXAMPLE (C16_state_cache): `.mazes` read, a member replaced, `.mazes` read again:
+    the second read still answers the old list while `len` and `coll[2]` follow the edit -/
+example : (run (init [[1], [2]]) [.readMazes, .setMember 0 [1, 3], .readMazes, .len, .getitem 2, .getitem 1]).2
+  = [.list [1, 2], .unit, .list [1, 2], .nat 3, .item 2, .item 3] := by decide
+
+/-- the hypotheses of C16_state_cache / _fresh_iff are satisfiable with a stale outcome: p1 = [set], p2 = [set] -/
+example : (∀ o ∈ [Op.setMember 0 [5]], o.isRead = false) ∧ (init [[1], [2]]).cache = none ∧
+    obs (init [[1], [2]]) ([.setMember 0 [5]] ++ .readMazes :: [.setMember 1 []]) .readMazes = .list [5, 2] ∧
+    (curMembers [[1], [2]] ([.setMember 0 [5]] ++ .readMazes :: [.setMember 1 []])).flatten = [5] := by decide
+
+/-- "fresh iff no member changed" would be WRONG in one direction: members may change while the concatenation does not
+    (mazes moved between members) — the cache is then still equal to the current concatenation. Hence the `iff` above
+    is on the concatenations, and `C16_state_cache_fresh` is only a sufficient condition. -/
+example : obs (init [[1], [2]]) ([] ++ .readMazes :: [.setMember 0 [1, 2], .setMember 1 []]) .readMazes = .list [1, 2] ∧
+    curMembers [[1], [2]] ([] ++ .readMazes :: [.setMember 0 [1, 2], .setMember 1 []]) = [[1, 2], []] := by decide
+
+/-- C16_state_cache_fresh: p2 without `setMember` (config updates, lookups) -/
+example : (∀ o ∈ [Op.collUpdateCfg, Op.getitem 0, Op.len (α := Nat)], o.isSet = false) ∧
+    obs (init [[1], [2]]) ([.setMember 1 [2, 3]] ++ .readMazes :: [.collUpdateCfg, .getitem 0, .len]) .readMazes
+      = .list [1, 2, 3] := by decide
+
+/-- C16_state_counts_after_update: counts disagree before the update, agree after it and stay so under
+    non-`setMember` statements; the next `setMember` breaks them again -/
+example : (run (init [[1], [2]]) [.setMember 0 [1, 3, 4], .cfgCount, .len, .collUpdateCfg, .memberUpdateCfg 1, .readMazes,
+      .cfgCount, .len, .lengths, .setMember 1 [], .cfgCount, .len]).2
+  = [.unit, .nat 2, .nat 4, .unit, .unit, .list [1, 3, 4, 2], .nat 4, .nat 4, .nats [3, 1], .unit, .nat 4, .nat 3] := by
+  decide
+
+/-- C16_state_counts_after_update_any from a state that violates every hypothesis of `C16_counts_agree`
+    (wrong member counts, too few member configs, surplus configs): repaired up to the surplus total -/
+example : (run ({ members := [[1], [2, 3], []], memberCfgN := [7], extraCfgN := 5, dictN := none, cache := none } : CState Nat)
+      [.cfgCount, .len, .collUpdateCfg, .cfgCount, .len]).2 = [.nat 12, .nat 3, .unit, .nat 8, .nat 3] := by decide
+
+/-- C16_state_counts_invariant: a disciplined list (set; member update; observe) and an undisciplined one -/
+example : disciplined [] [Op.setMember 0 [1, 3], .memberUpdateCfg 0, .cfgCount, .setMember 1 [], .readMazes, .getitem 0,
+      .collUpdateCfg, .len, .lengths] = true ∧
+    disciplined [] [Op.setMember 0 [1, 3], .memberUpdateCfg 1, .cfgCount] = false ∧
+    dirty [] [Op.setMember 0 [1, 3], .memberUpdateCfg 0, .setMember 1 ([] : List Nat)] = [1] ∧
+    (run (init [[1], [2]]) [.setMember 0 [1, 3], .memberUpdateCfg 0, .cfgCount, .setMember 1 [], .readMazes, .getitem 0,
+      .collUpdateCfg, .len, .lengths]).2
+      = [.unit, .unit, .nat 3, .unit, .list [1, 3], .item 1, .unit, .nat 2, .nats [2, 0]] := by decide
+
+/-- without the discipline the counts do disagree (updating the WRONG member does not help) -/
+example : (run (init [[1], [2]]) [.setMember 0 [1, 3], .memberUpdateCfg 1, .cfgCount, .len]).2
+  = [.unit, .unit, .nat 2, .nat 3] := by decide
+
+/-- `update_self_config` writes `cfg.__dict__["n_mazes"]`, which the property shadows: recorded, never reported -/
+example : (run (init [[1], [2]]) [.setMember 0 [], .collUpdateCfg, .setMember 1 [2, 3, 4], .cfgCount]).1.dictN = some 1 ∧
+    (run (init [[1], [2]]) [.setMember 0 [], .collUpdateCfg, .setMember 1 [2, 3, 4], .cfgCount]).2
+      = [.unit, .unit, .unit, .nat 1] := by decide
 
 end MZ.Coll
